@@ -260,7 +260,7 @@ def run_k03(chk, tier):
 
 def py_kind(proto_id, resp):
     try:
-        v = V.validate(proto_id, resp)
+        v = V.validate(proto_id, resp, check_length=False)   # the Coq readers see one reply, not the request method
     except V.Malformed:
         return 0
     return 1 if v["kind"] == "error" else 2
